@@ -370,10 +370,19 @@ def run_region(ctx, case):
     scale_attr = {"paveba": "r_t", "pavebagp": "alpha_t", "partialgp": "alpha_t", "vogp": "beta", "epal": "beta",
                   "auer": "beta_t", "aueremp": "beta_t"}[alg]
     used_raw = getattr(o, scale_attr)
-    S_sorted = list(o.S) if alg in ("auer", "aueremp") else None  # Auer: row r of beta_t belongs to list(S)[r]
-    if isinstance(used_raw, dict):
-        # Auer keeps its widths keyed by design (either form is fine for the property): realign with list(S)
-        used_raw = [used_raw[d] for d in S_sorted]
+    S_sorted = list(o.S) if alg in ("auer", "aueremp") else None
+    if S_sorted is not None:
+        # Auer's width store is an internal representation (dict by design / positional array / table by design …):
+        # read it through the shared helper and realign with list(S); an unrecognised form is not guessed — the
+        # "code's own scale" sub-check is skipped, the displayed boxes are still compared with the model's schedule
+        from harness import stubs
+
+        try:
+            w = stubs.auer_get_widths(o, S_sorted)
+            used_raw = [w[d] for d in S_sorted]
+        except (stubs.AuerWidthFormUnknown, KeyError, ValueError):
+            ctx.count("auer_width_store_unreadable_info")
+            used_raw = np.full((len(S_sorted), m, 2), np.nan)  # shape no branch below accepts
     used = np.asarray(used_raw, dtype=float)
     bad = None
     for i in range(K):
@@ -407,7 +416,7 @@ def run_region(ctx, case):
                     bad = f"design {i} objective {j}: bounds [{rl[j]}, {ru[j]}] vs model [{lo[j]}, {up[j]}]"
             if alg in ("auer", "aueremp"):
                 row = S_sorted.index(i)
-                csc = used[row] if used.ndim == 2 else np.repeat(used, m)
+                csc = used[row] if used.ndim == 2 else (np.repeat(used, m) if used.ndim < 2 else np.zeros(0))
             else:
                 csc = np.repeat(np.atleast_1d(used), m)[:m] if used.size == 1 else used.ravel()
             if np.asarray(csc).shape == (m,):
